@@ -161,6 +161,50 @@ def c11_bounded(tier="quick", seed=0):
     return out
 
 
+@groups.group(id="C11.bounded.current-state", prop="C11", kind="B", functions=["microjs.context:Context._to_python", "microjs.context:Context.get", "microjs.context:Context.eval"])
+def c11_current_state(tier="quick", seed=0):
+    """what get / eval hand to Python is the CURRENT content of the script value, as a structure of its own: a second
+    conversion after the script changed the value shows the change, and changing a returned list or dict changes neither
+    the script's value nor a structure returned earlier or later"""
+    import copy
+    from microjs import Context
+    shapes = {"flat numbers": ("[3, 1, 2]", "v.push(4)", [3, 1, 2], [3, 1, 2, 4]), "flat strings": ("['a', 'b']", "v[0] = 'z'", ["a", "b"], ["z", "b"]),
+              "nested": ("[[1], {k: [2]}]", "v[1].k.push(3); v[0][0] = 9", [[1], {"k": [2]}], [[9], {"k": [2, 3]}]), "object": ("({n: 1, o: {m: 2}})", "v.n = 2; v.o.m = 3; v.added = true", {"n": 1, "o": {"m": 2}}, {"n": 2, "o": {"m": 3}, "added": True}),
+              "empty array": ("[]", "v.push(1)", [], [1]), "empty object": ("({})", "v.k = 1", {}, {"k": 1}), "mixed": ("[1, 'a', null, true, [2]]", "v.length = 2", [1, "a", None, True, [2]], [1, "a"])}
+    bad = None
+    n = 0
+    for name, (lit, change, before, after) in shapes.items():
+        for how in ("get", "eval", "set-then-get"):
+            c = Context(time_limit=10)
+            n += 1
+            try:
+                if how == "set-then-get":
+                    c.set("v", copy.deepcopy(before))
+                else:
+                    c.eval(f"var v = {lit}; 0")
+                read = (lambda: c.get("v")) if how != "eval" else (lambda: c.eval("v"))
+                r1 = read()
+                ok1 = r1 == before
+                # the caller owns what it got
+                if isinstance(r1, list):
+                    r1.append("host")
+                elif isinstance(r1, dict):
+                    r1["host"] = 1
+                r1b = read()
+                ok2 = r1b == before and r1b is not r1
+                c.eval(change + "; 0")
+                r2 = read()
+                ok3 = r2 == after
+                ok4 = r1b == before            # a structure returned earlier does not follow the script
+                why = None if (ok1 and ok2 and ok3 and ok4) else f"first read ok: {ok1}; unaffected by the host's change to the first result: {ok2}; after `{change}`: {r2!r} (expected {after!r}); earlier result unchanged: {ok4}"
+            except Exception as e:  # noqa
+                why = f"{type(e).__name__}: {str(e)[:80]}"
+            if why and bad is None:
+                bad = (f"{name} via {how}", why)
+    return [ob("C11.bounded.current-state", bad is None, "B", f"{n} (shape, access path) sequences" if bad is None else f"{bad[0]}: {bad[1]}",
+               witness=(bad[0] if bad else None), confirmed=True if bad else None, domain=n)]
+
+
 @groups.group(id="C11.struct.process-state", prop="C11", kind="K3", functions=["microjs (module-level state)"])
 def c11_process_state(tier="quick", seed=0):
     """a conversion depends on the value converted only: no memo, cache or default-argument container survives from one
